@@ -135,6 +135,14 @@ def main(tier, seed):
                 if obs[nme] != ref[1][nme]:
                     rep.violation("corpus script %s behaves differently on %s and %s: %r vs %r" % (nme, ref[0], bname, ref[1][nme], obs[nme]),
                                   {"script": nme, ref[0]: ref[1][nme], bname: obs[nme]})
+    # and their control events are a behaviour of TraceVm.tla on every build (fib = ufib at every event, handler / frame discipline)
+    import tracevm
+    ncorp = 0
+    for bname, binary in bins:
+        cs = [{"id": ["corpus", nme], "main": src, "modules": modules, "gc": "default"} for nme, src, exp in items]
+        np_, nev = tracevm.validate(rep, binary, bname, cs, "the repository's scripts", tag="c10corpus")
+        ncorp += nev
+    rep.coverage["corpus_events_validated_by_TraceVm"] = ncorp
     rep.coverage["traces_validated_against_impl"] = total
     rep.coverage["builds"] = [b for b, _ in bins]
     rep.coverage["exhaustive"] = False
